@@ -51,7 +51,7 @@ PROPS["C16"] = {
 }
 
 PROPS["C06"] = {
-    "kani": ["c06_face", "dec_payload"],
+    "kani": ["c06_face", "dec_sgr"],
     "verus": [],
     "explanation": "",
     "assumptions": [],
@@ -78,6 +78,28 @@ PROPS["C02"] = {
     "assumptions": [],
     "trusted_base": COMMON_TRUSTED,
     "technique": "Verus contracts on number_decode/utf8_decode; Kani/CBMC harnesses on payload decoders",
+    "level_text": "",
+    "level_note": "",
+}
+
+PROPS["C14"] = {
+    "kani": ["c14_base64", "c14_enc_table"],
+    "verus": ["base64enc"],
+    "explanation": "",
+    "assumptions": [],
+    "trusted_base": COMMON_TRUSTED,
+    "technique": "Verus contracts on the streaming encoder (carry-buffer algebra, unbounded); Kani/CBMC complete harnesses for tables and quantum round trip; bounded Kani twin for the decoder",
+    "level_text": "",
+    "level_note": "",
+}
+
+PROPS["C07"] = {
+    "kani": [],
+    "verus": ["surface"],
+    "explanation": "",
+    "assumptions": [],
+    "trusted_base": COMMON_TRUSTED,
+    "technique": "Verus: ghost window model (root matrix, origin, extent, transposed flag) as representation invariant on the extracted Shape/Surface/SurfaceMut code (unbounded)",
     "level_text": "",
     "level_note": "",
 }
